@@ -24,6 +24,7 @@ CONSTANTS
   MaxSteps = 3
   RationalOnly = FALSE
   Twins = FALSE
+  SetOnce = FALSE
   Chain = FALSE
   NeedDt = FALSE
   BindLeaves = FALSE
